@@ -611,7 +611,7 @@ fn real_main() {
         }
         "ln" => {
             let lengths: Vec<usize> = args
-                .str("lengths", if thorough { "33,34,40,47,48,64,65,100,255,256,300" } else { "33,40,65" })
+                .str("lengths", if thorough { "33,34,40,47,48,64,65,100,130,255,256,300" } else { "33,40,65,130,256" })
                 .split(',')
                 .map(|x| x.parse().unwrap())
                 .collect();
